@@ -86,8 +86,8 @@ ABS_FORMS = ["attr", "from", "star", "lazy", "lazyfrom"]
 REL_FORMS = ["rel", "relfrom", "relstar", "lazyrel"]
 LAZY_FORMS = {"lazy", "lazyfrom", "lazyrel"}
 STAR_FORMS = {"star", "relstar"}
-SEQ_KINDS = {"start", "imp", "see", "spawned", "enter", "bumped", "back", "after"}
-OWN_KINDS = {"start", "spawned", "enter", "bumped", "back", "after", "loaded_end"}
+SEQ_KINDS = {"start", "imp", "see", "spawned", "enter", "bumped", "back", "after", "badback"}
+OWN_KINDS = {"start", "spawned", "enter", "bumped", "back", "after", "loaded_end", "badback"}
 
 
 # ------------------------------------------------------------------ generation
@@ -189,6 +189,10 @@ def _gen_plan(rng: random.Random, files: list, edges: list, entry: str, max_hops
             "sleep": rng.choice([0, 0, 0.1, 0.3, 0.6]), "sleep2": rng.choice([0, 0, 0, 0.2]),
             "raise": rng.random() < 0.18, "catch": rng.choice(["catch", "catch", "reraise", "none"]),
             "spawn": d > 0 and rng.random() < 0.12,
+            # the caller first calls this hop's function with no arguments at all: the TypeError is raised while
+            # the arguments are bound, i.e. before the callee's body starts; the caller catches it and looks at
+            # its own globals again
+            "badfirst": rng.random() < 0.15,
         })
         cur = dst
         if cur not in upstream:
@@ -318,8 +322,8 @@ def simplify(scn: dict):
             yield normalize(cand)
         for si, step in enumerate(run["plan"]):
             for key, val in (("sleep", 0), ("sleep2", 0), ("raise", False), ("meth", False), ("spawn", False),
-                             ("catch", "catch")):
-                if step.get(key) != val and not (key == "spawn" and si == 0):
+                             ("catch", "catch"), ("badfirst", False)):
+                if step.get(key, val) != val and not (key == "spawn" and si == 0):
                     cand = copy.deepcopy(scn)
                     cand["spec"]["runs"][ri]["plan"][si][key] = val
                     yield normalize(cand)
@@ -422,7 +426,7 @@ def _own(fid: str) -> str:
     return "tag=tag, counter=counter, tok=import_token, ctx=pyscript.get_global_ctx()"
 
 
-def _dispatch(fid: str, my_edges: list, ind: str) -> list[str]:
+def _dispatch(fid: str, my_edges: list, ind: str, files: list) -> list[str]:
     lines = [f"{ind}tk = None", f"{ind}fn = None",
              f"{ind}if via == 'self':", f"{ind}    fn = box.poke if nx['meth'] else hop",
              f"{ind}elif via == 'cb':", f"{ind}    fn = cbs[nx['f'] + '.m'] if nx['meth'] else cbs[nx['f']]"]
@@ -440,6 +444,10 @@ def _dispatch(fid: str, my_edges: list, ind: str) -> list[str]:
             lines.append(f"{ind}    fn = {ex['box']}.poke if nx['meth'] else {ex['hop']}")
     lines += [f"{ind}if tk is not None:",
               f"{ind}    sim.mark('see', {fid!r}, run=run, d=d, g=nx['f'], via=via, tok=tk)"]
+    lines += [f"{ind}if nx.get('badfirst'):", f"{ind}    try:", f"{ind}        fn()",
+              f"{ind}    except TypeError:", f"{ind}        pass"]
+    lines += _vis_block(fid, files, ind + "    ")
+    lines.append(f"{ind}    sim.mark('badback', {fid!r}, run=run, d=d, {_own(fid)}, vis=vis)")
     return lines
 
 
@@ -457,7 +465,7 @@ def _hop_body(fid: str, files: list, my_edges: list, ind: str, meth: bool) -> li
     lines.append(f"{ind}sim.mark('bumped', {fid!r}, run=run, d=d, k={k!r}, {own})")
     lines += [f"{ind}if len(plan) > 1:", f"{i2}rest = plan[1:]", f"{i2}nx = rest[0]", f"{i2}via = nx['via']",
               f"{i2}cbs2 = dict(cbs)", f"{i2}cbs2[{fid!r}] = hop", f"{i2}cbs2[{fid + '.m'!r}] = box.poke"]
-    lines += _dispatch(fid, my_edges, i2)
+    lines += _dispatch(fid, my_edges, i2, files)
     lines += [f"{i2}if nx['spawn']:", f"{i3}task.create(fn, nx['run'], rest, cbs2)",
               f"{i3}sim.mark('spawned', {fid!r}, run=run, d=d, {own})",
               f"{i2}elif me['catch'] == 'none':", f"{i3}fn(run, rest, cbs2)"]
@@ -518,7 +526,7 @@ def _render_file(fid: str, spec: dict) -> str:
         lines += ["def launch(run, plan, how, top):", "    nx = plan[0]", "    via = nx['via']", "    d = -1",
                   f"    cbs = {{{fid!r}: hop, {fid + '.m'!r}: box.poke}}",
                   f"    sim.mark('start', {fid!r}, run=run, d=d, how=how, {own})"]
-        lines += _dispatch(fid, my_edges, "    ")
+        lines += _dispatch(fid, my_edges, "    ", files)
         lines += ["    if nx['spawn']:", "        task.create(fn, nx['run'], plan, cbs)",
                   f"        sim.mark('spawned', {fid!r}, run=run, d=d, {own})",
                   "    else:", "        res = 'ret'", "        try:", "            fn(run, plan, cbs)",
@@ -561,6 +569,8 @@ def _pre_call(seq: list, fid: str, d: int, nx: dict) -> None:
         seq.append(("imp", fid, d))
     if form not in ("self", "cb"):
         seq.append(("see", fid, d))
+    if nx.get("badfirst"):
+        seq.append(("badback", fid, d))
 
 
 def _exp_hop(out: dict, rid: int, plan: list, i: int) -> str:
@@ -913,7 +923,7 @@ def judge(w: World, scn: dict, st: dict):
         # ---- marks made by code of file fid that read its own globals
         if kind not in OWN_KINDS:
             raise HarnessError(f"C11: unknown mark kind {kind}")
-        cls = "C11.caller_context_not_restored" if kind in ("back", "after") else "C11.foreign_globals"
+        cls = "C11.caller_context_not_restored" if kind in ("back", "after", "badback") else "C11.foreign_globals"
         check_own(m, fid, kw, cls, kind, bump=(kind == "bumped"))
         if kind == "enter":
             if kw.get("k") == "m":
@@ -1073,6 +1083,8 @@ def _count_plan_features(w: World, rn: dict, rid: int) -> None:
             w.probe("callback_into_upstream_file")
         if step["spawn"] and step["f"] != prev:
             w.probe("task_create_cross_file")
+        if step.get("badfirst") and step["f"] != prev:
+            w.probe("cross_file_call_failed_at_argument_binding")
         if step["raise"] and step["f"] != prev and not step["spawn"]:
             w.probe("callee_raised_through_context_switch")
         if i + 1 < len(plan) and step["catch"] == "none" and not plan[i + 1]["spawn"] and _raises(plan, i + 1):
